@@ -500,6 +500,15 @@ def formulas(ctx, mod):
             after_acc = bool(acc) and same_block and body.index(acc[-1]) < body.index(clamp[0]) < body.index(divs[0])
             ctx.check('C02-D3', key + '-clamp-after-sum', after_acc, 'pair counts are summed over all replicas first, then clamped at 1, then divide Gamma',
                       'the clamp of the pair counts is not applied to the completed sum over replicas (it sits %s)' % ('inside the accumulation loop' if not same_block else 'before the accumulation'), mod.loc(clamp[0]))
+        # every summand of the pair count is itself a count (>= 0 at every lag): the pair count of one replica computed by
+        # _calc_gamma on a vector of ones, or an expression that is clipped at zero explicitly
+        if ok:
+            for a_ in [x for x in g.sts if isinstance(x, ast.AugAssign) and isinstance(x.op, ast.Add) and unparse(x.target) == base.id]:
+                v_ = a_.value
+                is_count = isinstance(v_, ast.Call) and call_name(v_) == '_calc_gamma' and v_.args and isinstance(v_.args[0], ast.Call) and call_name(v_.args[0]) == 'ones'
+                clipped = isinstance(v_, ast.Call) and call_name(v_) in ('maximum', 'clip') or (isinstance(v_, ast.Name))
+                ctx.check('C02-D3', key + '-summand[%s]' % unparse(v_)[:40], is_count or clipped, 'summand is a pair count',
+                          'the pair count is increased by `%s`, which is not a pair count (it can be negative for a replica shorter than the lag range): the sum over replicas is too small at large lags' % unparse(v_)[:80], mod.loc(a_))
         ctx.check('C02-D3', key, bool(ok and okc), 'Gamma(t) is divided by the number of pairs actually present, clamped at 1',
                   'normalisation of Gamma differs: %s ; clamp %s' % (unparse(divs[0]), [unparse(c) for c in clamp]), mod.loc(divs[0]))
 
